@@ -17,6 +17,8 @@ import (
 )
 
 type Verifier struct {
+	avpDefs []avpDef
+	avpErrs []string
 	repo           string
 	fset           *token.FileSet
 	prog           *ssa.Program
